@@ -1,6 +1,7 @@
 import F1Verif.Util
 import F1Verif.Model.MiniGo
 import F1Verif.Model.Distribution
+import F1Verif.Model.Staged
 import F1Verif.Generated.MiniGo
 /-!
 Driver ops `mg.*`: the MiniGo programs regenerated from /repo are *executed* (binary64 arithmetic) on the same cases
@@ -141,6 +142,70 @@ def mgDist (args _impl : List String) : Option (String × String) := do
       | none =>
         let ivOut := match s0.get "distributedIterationDuration" with | some (.int d) => toString d | _ => "?"
         pure (s!"{ivOut} {r.2.1.ncalls "arg1"} {intsTok r.1.toList}", "ok")
+  | _ => none
+
+/-- times are nanoseconds since an arbitrary non-zero base, so that the zero `time.Time` stays distinguishable -/
+def mgBase : Int := 1700000000000000000
+
+def mgParseStages (s : String) : Option (List (Int × Int)) :=
+  if s = "-" then some [] else
+  (s.splitOn ";").mapM fun (p : String) =>
+    match p.splitOn ":" with
+    | [d, t] => do pure (← d.toInt?, ← t.toInt?)
+    | _ => none
+
+/-- `mg.staged <stages> <start|-> <queries>` — the generated `RateCalculator.Rate` called once per query on the state
+the previous call left (cursor, start time); the stage list is chained as `NewRateCalculator` does -/
+def mgStaged (args impl : List String) : Option (String × String) := do
+  match args with
+  | [stages, start, qs] =>
+    let l ← mgParseStages stages
+    let qs ← parseInts qs
+    let start : Option Int ← if start = "-" then pure none else (start.toInt?).map some
+    let recs : List (List (String × Val Float)) := (F1.Staged.mkStages l).map fun st =>
+      [("StartTarget", .int st.s), ("EndTarget", .int st.e), ("Duration", .int st.d)]
+    let s0 : State Float := ⟨[("recv.current", .int (-1)), ("recv.start", .int (match start with | some t => mgBase + t | none => 0)),
+      ("arg0", .int 0)], [], [], [], [("recv.stages", recs)]⟩
+    let r := Id.run do
+      let mut s := s0
+      let mut outs : Array Int := #[]
+      let mut err : Option String := none
+      for q in qs do
+        if err.isNone then
+          match runFn mgNoExt (l.length + 2) staged_Rate (s.set "arg0" (.int (mgBase + q))) with
+          | .ok ([.int o], s') => outs := outs.push o; s := s'
+          | .ok _ => err := some "mg-error:shape"
+          | .error m => err := some (mgErr m)
+      return (outs, err)
+    match r.2 with
+    | some e => pure (e, "ok")
+    | none => pure (s!"{impl.getD 0 "-"} {intsTok r.1.toList}", "ok")     -- the reported duration is `MaxDuration`, not this program
+  | _ => none
+
+/-- `mg.ramp <startRate> <endRate> <unitNs> <durationNs> <queries>` — the generated rate function of `CalculateRampRate`
+(its validation and the rate parsing in front of it are not part of the program: a refused ramp is skipped) -/
+def mgRamp (args impl : List String) : Option (String × String) := do
+  match args with
+  | [s, e, _unit, dur, qs] =>
+    let s ← s.toInt?; let e ← e.toInt?; let dur ← dur.toInt?
+    let qs ← parseInts qs
+    if impl = ["err"] then return ("err", "ok")
+    let s0 : State Float := State.ofVars [("startTime", .nil), ("arg3", .int dur), ("startRate", .int s), ("endRate", .int e),
+      ("carg0", .int 0)]
+    let r := Id.run do
+      let mut st := s0
+      let mut outs : Array Int := #[]
+      let mut err : Option String := none
+      for q in qs do
+        if err.isNone then
+          match runFn mgNoExt 0 ramp_rateFn_body (st.set "carg0" (.int (mgBase + q))) with
+          | .ok ([.int o], s') => outs := outs.push o; st := s'
+          | .ok _ => err := some "mg-error:shape"
+          | .error m => err := some (mgErr m)
+      return (outs, err)
+    match r.2 with
+    | some e => pure (e, "ok")
+    | none => pure (s!"{impl.getD 0 "-"} {impl.getD 1 "-"} {intsTok r.1.toList}", "ok")
   | _ => none
 
 end F1.Drive
